@@ -51,9 +51,9 @@ def plainOf (ext : Ext) : Obj → Option (Outcome Bytes)
   | .stream d c => some (getPlainContent ext ⟨d, c⟩)
   | _ => none
 
-/-- the object is a stream whose dictionary has distinct keys and whose `Filter` is not the empty array -/
+/-- the object, if a stream, has a dictionary with distinct keys (the `IndexMap` invariant) -/
 def StreamOk : Obj → Prop
-  | .stream d _ => Dict.KeysNodup d ∧ streamFilters d ≠ some []
+  | .stream d _ => Dict.KeysNodup d
   | _ => True
 
 /-- `Document::decompress`, object by object: ids are kept, non-stream objects are untouched, a stream is either
@@ -85,7 +85,7 @@ theorem docDecompress_spec' (ext : Ext) (os : Objects) (id : ObjId) :
       exact Or.inr ⟨s', rfl, h1, h2, h3, h5⟩
 
 /-- `Document::compress` then `Document::decompress`: every object keeps its id, non-streams are unchanged, and
-every stream keeps its plain content (flate2 hypotheses; distinct keys; `Filter` not the empty array) -/
+every stream keeps its plain content (flate2 hypotheses; distinct keys) -/
 theorem doc_compress_decompress' (ext : Ext) (deflate : Bytes → Bytes) (allows : ObjId → Bool)
     (hfl : ∀ x, ext.inflate (deflate x) = x) (hne : ∀ x, deflate x ≠ [])
     (os : Objects) (id : ObjId) :
@@ -106,14 +106,14 @@ theorem doc_compress_decompress' (ext : Ext) (deflate : Bytes → Bytes) (allows
   · intro o allow hs
     cases o with
     | stream d c =>
-      obtain ⟨hn, hf⟩ := hs
+      have hn : Dict.KeysNodup d := hs
       cases allow with
       | true =>
         simp only [compObj, if_true, decompObj, plainOf]
-        exact congrArg some (compress_decompress_plain' ext deflate hfl hne ⟨d, c⟩ hn hf)
+        exact congrArg some (compress_decompress_plain' ext deflate hfl hne ⟨d, c⟩ hn)
       | false =>
         simp only [compObj, Bool.false_eq_true, if_false, decompObj, plainOf]
-        exact congrArg some (decompS_plain' ext ⟨d, c⟩ hn hf)
+        exact congrArg some (decompS_plain' ext ⟨d, c⟩ hn)
     | _ => cases allow <;> rfl
 
 /-- the former witness of finding F-C09-d (repaired by lopdf 70e5e99): with the EMPTY filter array `decompress`
